@@ -273,6 +273,12 @@ func c09History(c *Ctx, cs Case, prop string) {
 	nEmpty := emptyLists(lists)
 	curLists := lists // the Spec view of the database before the current operation
 	prevEnc := db.Bytes() // the encoding of the database before the current operation
+	// "observe": "lazy" - the database OBJECT is encoded only where the history says so (operations E and B), as in a
+	// program that edits a database several times between two encodings.  The view of the database the oracles and the
+	// model comparison need after every operation is then taken from the exported fields of the lists (fieldEnc), which
+	// is no call on the object.  (Otherwise every operation is followed by a Bytes() on the object.)
+	lazy := cs.S("observe") == "lazy"
+	var modelOps []string // the operations the model is asked about: all but the observations B
 	var goOuts []string
 	appendedEmpty := 0 // signature-less lists handed to AppendList (known finding F20)
 	var held []*heldList // the lists handed to AppendList / AppendDatabase so far: the caller still has them
@@ -286,6 +292,7 @@ func c09History(c *Ctx, cs Case, prop string) {
 		var handed *signature.SignatureList // the list this operation hands to the database
 		var otherForm *signature.SignatureDatabase
 		var otherClass string
+		var observed []byte // operation B: what the encoder wrote
 		panicked, pmsg := safely(func() {
 			switch f[0] {
 			case "A":
@@ -409,6 +416,29 @@ func c09History(c *Ctx, cs Case, prop string) {
 				if err == nil {
 					*db = d
 				}
+			case "B":
+				// the object is ENCODED and stays what it is (the next operations go on with the same list objects):
+				// f = op, entry point (Bytes / Marshal / WriteSignatureDatabase / the lists' own Bytes())
+				switch atoi(f[1]) % 4 {
+				case 0:
+					observed = db.Bytes()
+				case 1:
+					var mb bytes.Buffer
+					db.Marshal(&mb)
+					observed = mb.Bytes()
+				case 2:
+					w := &plainWriter{}
+					signature.WriteSignatureDatabase(w, *db)
+					observed = w.b
+				default:
+					for _, l := range *db {
+						observed = append(observed, l.Bytes()...)
+					}
+				}
+				if observed == nil {
+					observed = []byte{}
+				}
+				class = "ok"
 			}
 		})
 		if panicked {
@@ -450,11 +480,19 @@ func c09History(c *Ctx, cs Case, prop string) {
 				}
 			}
 		}
-		enc := db.Bytes()
-		if answer != "" {
-			goOuts = append(goOuts, answer)
+		var enc []byte
+		if lazy {
+			enc = fieldEnc(*db)
 		} else {
-			goOuts = append(goOuts, class+" "+hx(enc))
+			enc = db.Bytes()
+		}
+		if f[0] != "B" {
+			modelOps = append(modelOps, op)
+			if answer != "" {
+				goOuts = append(goOuts, answer)
+			} else {
+				goOuts = append(goOuts, class+" "+hx(enc))
+			}
 		}
 		// ---- abstract oracle (from the property statement) ----
 		lists, wf := specOf(enc)
@@ -482,6 +520,17 @@ func c09History(c *Ctx, cs Case, prop string) {
 		}
 		abs = absOf(lists)
 		curLists = lists
+		if f[0] == "B" {
+			// "every database built through the library's own operations encodes to a well-formed stream that decodes
+			// to an equal database": what the encoder wrote must decode (Spec codec) to exactly the lists the object
+			// holds NOW - whatever was encoded earlier and whatever was done to the database in between
+			got := c.Drv.Ask("sigdb.spec", hx(observed))
+			if want := "some " + goDbStr(*db); got != want {
+				entry := []string{"Bytes()", "Marshal()", "WriteSignatureDatabase", "the lists' own Bytes()"}[atoi(f[1])%4]
+				fail(i, "the encoding of the database ("+entry+") does not decode to the database as it is now: the stream holds other lists / entries than the object", clip(got), clip(want), "")
+				return
+			}
+		}
 		if prop == "C09" {
 			for _, l := range lists {
 				seen := map[[2]string]bool{}
@@ -653,8 +702,11 @@ func c09History(c *Ctx, cs Case, prop string) {
 	}
 	// ---- correspondence with the Lean model, op by op ----
 	c.Trace()
-	m := c.Drv.Ask("sigdb.ops", pemTab, start, strings.Join(ops, ";"))
-	c.GenTie(cs, "sigdb.ops (Append / Remove / queries / AppendList / encode-decode)", m, "gen.sigdb.ops", pemTab, start, strings.Join(ops, ";"))
+	if len(modelOps) == 0 {
+		return
+	}
+	m := c.Drv.Ask("sigdb.ops", pemTab, start, strings.Join(modelOps, ";"))
+	c.GenTie(cs, "sigdb.ops (Append / Remove / queries / AppendList / encode-decode)", m, "gen.sigdb.ops", pemTab, start, strings.Join(modelOps, ";"))
 	if m != strings.Join(goOuts, "/") {
 		mo := strings.Split(m, "/")
 		for i := range goOuts {
@@ -663,7 +715,7 @@ func c09History(c *Ctx, cs Case, prop string) {
 				if i < len(mo) {
 					mm = mo[i]
 				}
-				c.Fail(Failure{Kind: "tie", What: fmt.Sprintf("sigdb.ops disagrees at op %d (%s)", i, opShort(ops, i)), Case: cs, Model: mm, Go: goOuts[i]})
+				c.Fail(Failure{Kind: "tie", What: fmt.Sprintf("sigdb.ops disagrees at op %d (%s)", i, opShort(modelOps, i)), Case: cs, Model: mm, Go: goOuts[i]})
 				break
 			}
 		}
@@ -1013,6 +1065,9 @@ func historyShrunk(c *Ctx, cs Case, prop string) {
 		ops := opsOf(cur)
 		for i := len(ops) - 1; i >= 0 && len(ops) > 1; i-- {
 			cand := Case{"op": "history", "pem": cur["pem"], "start": cur["start"]}
+			if ob, ok := cur["observe"]; ok {
+				cand["observe"] = ob
+			}
 			no := append(append([]interface{}{}, ops[:i]...), ops[i+1:]...)
 			cand["ops"] = no
 			fs := c.Probe(func(p *Ctx) { c09History(p, cand, prop) })
@@ -1025,6 +1080,9 @@ func historyShrunk(c *Ctx, cs Case, prop string) {
 		}
 		if cur.S("start") != "empty" {
 			cand := Case{"op": "history", "pem": cur["pem"], "start": "empty", "ops": cur["ops"]}
+			if ob, ok := cur["observe"]; ok {
+				cand["observe"] = ob
+			}
 			fs := c.Probe(func(p *Ctx) { c09History(p, cand, prop) })
 			for _, f := range fs {
 				if failSig(f) == sig {
